@@ -20,9 +20,10 @@ EXTRACT = os.path.join(COQ, "extract")
 EVIDENCE = os.path.join(VERIF, "evidence")
 REPLAYS = os.path.join(VERIF, "replays")
 KNOWN = os.path.join(VERIF, "known_findings.txt")
-DRIVER_GROUPS = ["sp", "models"]
-GROUP_PRELUDES = {"sp": ["prelude_base.ml", "prelude_num.ml"], "models": ["prelude_base.ml"],
-                  "mix": ["prelude_base.ml", "prelude_num.ml"], "tr": ["prelude_base.ml", "prelude_num.ml"]}
+DRIVER_GROUPS = ["sp", "models", "cache"]
+GROUP_PRELUDES = {"sp": ["prelude_base.ml", "prelude_z.ml", "prelude_num.ml"], "models": ["prelude_base.ml", "prelude_z.ml"],
+                  "cache": ["prelude_base.ml"], "mix": ["prelude_base.ml", "prelude_z.ml", "prelude_num.ml"],
+                  "tr": ["prelude_base.ml", "prelude_z.ml", "prelude_num.ml"]}
 NCPU = os.cpu_count() or 4
 
 FORBIDDEN = re.compile(
